@@ -1114,7 +1114,7 @@ theorem doWhile_step (d lb : Tok) (body : List SStmt) (rb w lp : Tok) (c : SCond
       outS s (rp :: rest) B C
         (elabS env (substC s.constants) B C (isRB rest) (.doWhile d lb body rb w lp c rp) i j) := by
   simp only [swfS, Bool.and_eq_true, beq_iff_eq] at hx
-  obtain ⟨⟨⟨⟨⟨⟨h1, h2⟩, h3⟩, h4⟩, h5⟩, h6⟩, h7⟩ := hx
+  obtain ⟨⟨⟨⟨⟨⟨⟨h1, h2⟩, h3⟩, h4⟩, h5⟩, h6⟩, h7⟩, h8⟩ := hx
   simp only [needS] at hf
   rw [parseDoWhileStatement]
   simp only [printS, elabS, List.cons_append, List.append_assoc, List.nil_append]
@@ -1127,8 +1127,10 @@ theorem doWhile_step (d lb : Tok) (body : List SStmt) (rb w lp : Tok) (c : SCond
     obtain ⟨a, i1, j1⟩ := v
     simp only [outB, ex_bind_ok, List.nil_append]
     psimp [run_popBreak_S, run_popContinue_S, bt h4, bt h5,
-      bool_S env sn s B C i1 j1 c lp rp rest h6 n (by omega)]
-    rfl
+      cond_S env sn s B C i1 j1 c lp rp rest h8 h6 n (by omega)]
+    cases elabCond env (substC s.constants) c j1 with
+    | error e => rfl
+    | ok u => obtain ⟨ct, j2⟩ := u; rfl
 
 omit ih in
 theorem printCases_head (r : List SCase) (h : swfCases r = true) (rb : Tok) (rest : List Tok)
